@@ -250,28 +250,6 @@ Definition elem_written (P : program) (f : string) : bool :=
 Definition no_escape (P : program) (escapes : list (string * string)) : bool :=
   forallb (fun e => negb (elem_written P (snd e))) escapes.
 
-(* ---- one lock at a time; callbacks are not invoked under an inner lock ---- *)
-(* the largest number of mutexes held at once, and whether a callback (a channel send
-   in the real programs) is invoked while a mutex other than the Listener's is held *)
-Fixpoint nesting_ok (X : list string) (c : list instr) : bool :=
-  match c with
-  | [] => true
-  | Acq m :: r | AcqR m :: r => match X with [] => nesting_ok [m] r | _ => false end
-  | Rel m :: r | RelR m :: r => nesting_ok (rem m X) r
-  | CallCb _ :: r => match X with
-                     | [] => nesting_ok X r
-                     | [m] => String.eqb m listener_mutex && nesting_ok X r
-                     | _ => false
-                     end
-  | _ :: r => nesting_ok X r
-  end.
-
-Definition one_lock_at_a_time (P : program) : bool :=
-  match inline_all fuel0 P with
-  | Some bodies => forallb (nesting_ok []) bodies
-  | None => false
-  end.
-
 (* ---- no blocking send while holding a mutex the channel's consumer needs ----
    [consumers]: the (inlined) functions that receive from the channel; a send performed while
    holding m can wait forever when the queue is full and the consumer is waiting for m.
@@ -307,7 +285,7 @@ Definition blocking_senders (P : program) : list string :=
   | None => map fst P
   end.
 
-(* ---- a method that is ONE critical section of mutex m (what C13_rw_atomic assumes
+(* ---- a method that is ONE critical section of mutex m (what C13_rw_serial_by_definition assumes
    of the announcer's methods): Lock; guarded accesses; Unlock — nothing guarded outside *)
 Definition only_accesses (reads_only : bool) (c : list instr) : bool :=
   forallb (fun i => match i with
